@@ -161,6 +161,12 @@ def build(p):
                     ok = 1 if (r and not already) else 0
             except InvalidStateError:
                 ok = 0
+            except E.SchedAbort:
+                raise
+            except BaseException as ex:
+                # something escaped from the completion of the input: the combinator's own callback let it through
+                E.emit("InputSetRaise", f=i, s=type(ex).__name__)
+                return
             E.emit("InputSetRet", f=i, a=ok)
 
         def completer(i):
@@ -204,7 +210,9 @@ def build(p):
                 out = f_sequence(iter(args) if p.get("iter") else list(args))
             else:
                 out = f_traverse(fn, range(1, len(pos) + 1))
-        except Exception as ex:       # the combinator itself raised: there is no output to look at
+        except E.SchedAbort:
+            raise
+        except BaseException as ex:   # the combinator itself raised: there is no output to look at
             E.emit("CombRaise", s=type(ex).__name__)
             E.vsleep(max(horizon - E.now(), 0))
             E.emit("End")
